@@ -1,6 +1,6 @@
 import numpy as np
 
-from ..settings import Sign, EnvType, Format
+from ..settings import Sign, EnvType, Format, Keyword
 from ..datatypes import StringType, BooleanType, NumberType, FloatType, IntegerType
 from ..nodes import StringNode, BooleanNode, FloatNode, IntegerNode
 from ..environment import Environment
@@ -54,22 +54,36 @@ class ExportConfig:
             value = param.value
             if isinstance(param, StringType):
                 dtype = StringNode.keyword
-                value = f"\"{value}\""
+                scalar = lambda v: f"\"{v}\""
             elif isinstance(param, BooleanType):
                 dtype = BooleanNode.keyword
-                value = "true" if value else "false"
+                scalar = lambda v: "true" if v else "false"
             elif isinstance(param, IntegerType):
                 dtype = IntegerNode.keyword
                 if param.unsigned:
                     dtype = "u"+dtype
                 if param.precision!=IntegerType.precision:
                     dtype += str(param.precision)
-                value = int(param.value)
+                scalar = lambda v: int(v)
             elif isinstance(param, FloatType):
                 dtype = FloatNode.keyword
                 if param.precision!=FloatType.precision:
                     dtype += str(param.precision)
-                value = float(param.value)
+                scalar = lambda v: float(v)
+            if value is None:
+                value = Keyword.NONE
+            elif isinstance(value, (list, tuple, np.ndarray)):
+                # arrays: dimensions next to the type and values in a tight JSON notation
+                def array(values):
+                    if isinstance(values, (list, tuple, np.ndarray)):
+                        return "[" + ",".join(array(v) for v in values) + "]"
+                    return str(scalar(values))
+                dtype += "[" + ",".join(str(d) for d in np.shape(value)) + "]"
+                value = array(value)
+                if " " in value or "#" in value:
+                    value = f"'{value}'"
+            else:
+                value = scalar(value)
             if param.unit:
                 lines.append(f"{name} {dtype} = {value} {param.unit}")
             else:
